@@ -276,6 +276,36 @@ def binding_facts(repo: Path) -> dict:
 	return f
 
 
+def accumulator_facts(repo: Path) -> dict:
+	"""the two k-mer accumulators of sigs/calc.py as `Py.Acc` models them: adding an index marks it, the signature is the marked indices in
+	increasing order, a fresh accumulator marks nothing"""
+	f = dict.fromkeys(['arrayInit', 'arrayAdd', 'arraySignature', 'setInit', 'setAdd', 'setSignature', 'onlyAddUsed'], False)
+	try:
+		tree = ast.parse((repo / 'src' / 'gambit' / 'sigs' / 'calc.py').read_text())
+	except (SyntaxError, OSError):
+		return f
+
+	def method(cls, name):
+		c = next((st for st in tree.body if isinstance(st, ast.ClassDef) and st.name == cls), None)
+		m = next((x for x in (c.body if c else []) if isinstance(x, ast.FunctionDef) and x.name == name), None)
+		return None if m is None else ([a.arg for a in m.args.args], [ast.unparse(x) for x in _body(m)])
+	f['arrayInit'] = method('ArrayAccumulator', '__init__') == (['self', 'k'], ['self.k = k', 'self.array = np.zeros(nkmers(k), dtype=bool)', 'self._dtype = index_dtype(self.k)'])
+	f['arrayAdd'] = method('ArrayAccumulator', 'add') == (['self', 'i'], ['self.array[i] = True'])
+	f['arraySignature'] = method('ArrayAccumulator', 'signature') == (['self'], ['return np.flatnonzero(self.array).astype(self._dtype)'])
+	f['setInit'] = method('SetAccumulator', '__init__') == (['self', 'k'], ['self.k = k', 'self.set = set()', 'self._dtype = index_dtype(self.k)'])
+	f['setAdd'] = method('SetAccumulator', 'add') == (['self', 'index'], ['self.set.add(self._dtype.type(index))'])
+	f['setSignature'] = method('SetAccumulator', 'signature') == (['self'], ['sig = np.fromiter(self.set, dtype=self._dtype)', 'sig.sort()', 'return sig'])
+	# accumulate_kmers / calc_signature touch an accumulator only through add() and signature()
+	uses = set()
+	for fn in tree.body:
+		if isinstance(fn, ast.FunctionDef) and fn.name in ('accumulate_kmers', 'calc_signature'):
+			for x in ast.walk(fn):
+				if isinstance(x, ast.Attribute) and isinstance(x.value, ast.Name) and x.value.id == 'accumulator':
+					uses.add(x.attr)
+	f['onlyAddUsed'] = uses == {'add', 'signature'}
+	return f
+
+
 def query_flow_facts(repo: Path) -> dict:
 	"""`gambit.query.query`: which distances each result item is made of"""
 	f = dict.fromkeys(['dists', 'rows', 'inputsChecked', 'noOtherStores', 'result'], False)
@@ -609,6 +639,23 @@ def regenerate(repo: Path, out_dir: Path) -> dict:
 		qp.write_text(qtext)
 	report['modules']['PyQueryFlow'] = hashlib.sha1(qtext.encode()).hexdigest()[:12]
 	report['functions'].append('query.py query (which distances a result item is made of, structural facts)')
+	# --- src/gambit/sigs/calc.py: the accumulator classes as Py.Acc models them -----------------------------------------------------------------
+	af = accumulator_facts(repo)
+	ADOC = {'arrayInit': '`ArrayAccumulator(k)`: a Boolean array of `nkmers(k)` zeros (nothing marked)',
+	        'arrayAdd': '`ArrayAccumulator.add(i)` is `self.array[i] = True`',
+	        'arraySignature': '`ArrayAccumulator.signature()` is `np.flatnonzero(self.array)` in the index type: the marked indices, increasing',
+	        'setInit': '`SetAccumulator(k)`: an empty set',
+	        'setAdd': '`SetAccumulator.add(index)` adds the index (as a scalar of the index type) to the set',
+	        'setSignature': '`SetAccumulator.signature()` is the sorted array of the set',
+	        'onlyAddUsed': '`accumulate_kmers` and `calc_signature` touch the accumulator through `add` and `signature` only'}
+	atext = ('/-\nGENERATED by harness/pytrace.py from src/gambit/sigs/calc.py — do not edit.\n'
+	         'Regenerated at the start of every check; `GambitV.Tie.PyAccFacts` proves them.\n-/\nnamespace GambitV.Gen\n\n'
+	         + ''.join(f'/-- {ADOC[k]} -/\ndef pyAcc_{k} : Bool := {b(v)}\n' for k, v in af.items()) + '\nend GambitV.Gen\n')
+	ap = out_dir / 'PyAccFacts.lean'
+	if not ap.exists() or ap.read_text() != atext:
+		ap.write_text(atext)
+	report['modules']['PyAccFacts'] = hashlib.sha1(atext.encode()).hexdigest()[:12]
+	report['functions'].append('sigs/calc.py ArrayAccumulator, SetAccumulator (structural facts)')
 	# --- which compiled functions the public names are ---------------------------------------------------------------------------------------
 	bf = binding_facts(repo)
 	BDOC = {'seqRevcomp': '`gambit.seq.revcomp` is `gambit._cython.kmers.revcomp` itself (imported at module level, bound by nothing else)',
